@@ -394,11 +394,18 @@ def finalize_rules(fns, what, bad):
     for bp in lp[2]:
         stores = [e for e in bp.events('attrstore') if e[2] == INFO]
         has = [t for t in bp.tests() if t[1] == INFO]
+        done_tests = [t for t in bp.tests() if isinstance(t[1], tuple) and t[1][:3] == (
+            'CALL', ('VAR', 'isinstance'), INFO) and t[1][3:] == (('VAR', '_PositionInfo'),)]
+        already = any(t[2] for t in done_tests)
         if not stores:
-            if has and has[0][2]:
+            if has and has[0][2] and not already:
                 bad('SPAN-convert', f'{what}: an instance with a recorded span is not converted')
             continue
         converted = True
+        if not any(not t[2] for t in done_tests):
+            bad('SPAN-convert-once', f'{what}: spans are converted without testing that they are still raw: an '
+                                     f'object that a nested parse (started from inline Python on the same module) '
+                                     f'already finalised is converted a second time (TypeError: _Position - int)')
         nob += 3
         val = stores[0][3]
         ok = isinstance(val, tuple) and val[:2] == ('CALL', ('VAR', '_PositionInfo')) and len(val) == 4
